@@ -368,7 +368,7 @@ def _compute_integral_ir(
     active_tables: dict[str, npt.NDArray[np.float64]] = {}
     active_table_types: dict[str, _table_types] = {}
 
-    for name in active_table_names:
+    for name in sorted(active_table_names):
         # Drop tables not referenced from modified terminals
         if table_types[name] not in ("zeros", "ones"):
             active_tables[name] = tables[name]
